@@ -2,5 +2,267 @@
 
 package refcount
 
+import (
+	"context"
+	"errors"
+	"fmt"
+	"math/rand"
+	"time"
+
+	"verifharness/comp"
+)
+
+// errors returned by Access callbacks (ids 4..6; resolver errors are 1..3, Canceled is 9)
+var cbErrTab = []error{errors.New("c4"), errors.New("c5"), errors.New("c6")}
+
+func cbErrOf(i int) error {
+	if i >= 4 && i <= 6 {
+		return cbErrTab[i-4]
+	}
+	return nil
+}
+
+func consErrID(err error) int {
+	if err == nil {
+		return 0
+	}
+	for i, e := range cbErrTab {
+		if errors.Is(err, e) {
+			return 4 + i
+		}
+	}
+	return errID(err)
+}
+
+// probeAccess logs, for every Access callback that is in progress, whether its context is cancelled.
+func (w *world) probeAccess(cons []*consumer) {
+	for _, c := range cons {
+		c.mu.Lock()
+		for _, cb := range c.cbs {
+			if cb.ctx != nil && !cb.done {
+				w.log.Add("probe accessctx %d %d %d", c.id, cb.n, b2i(cb.ctx.Err() != nil))
+			}
+		}
+		c.mu.Unlock()
+	}
+}
+
 func (w *world) consumerStep(op string, f []string, async bool, refs *[]*refHolder, cons *[]*consumer, guard func(int)) {
+	log := w.log
+	switch op {
+	case "access":
+		ctx, cancel := context.WithCancel(context.Background())
+		c := &consumer{cancel: cancel}
+		c.id = log.Inv("access")
+		*cons = append(*cons, c)
+		*refs = append(*refs, &refHolder{id: c.id}) // keeps `release i` indices aligned; never releasable
+		id := c.id
+		cb := func(cbCtx context.Context, val int) error {
+			c.mu.Lock()
+			e := &accessCb{n: len(c.cbs), retCh: make(chan int, 1), ctx: cbCtx}
+			log.Add("cbin access %d %d %d", id, e.n, val)
+			c.cbs = append(c.cbs, e)
+			c.mu.Unlock()
+			r := 0
+			select {
+			case r = <-e.retCh:
+				log.Add("cbout access %d %d %d", id, e.n, r)
+			case <-w.stop:
+			}
+			c.mu.Lock()
+			e.done = true
+			c.mu.Unlock()
+			return cbErrOf(r)
+		}
+		w.call(true, func() {
+			defer guard(id)
+			err := w.rc.Access(ctx, cb)
+			log.Ret(id, "cons 0 %d", consErrID(err))
+		})
+	case "cbreturn":
+		if len(f) < 4 || atoi(f[1]) >= len(*cons) {
+			return
+		}
+		c := (*cons)[atoi(f[1])]
+		n := atoi(f[2])
+		var e *accessCb
+		for i := 0; i < 40 && e == nil; i++ {
+			c.mu.Lock()
+			if n < len(c.cbs) {
+				e = c.cbs[n]
+			}
+			c.mu.Unlock()
+			if e == nil {
+				time.Sleep(100 * time.Microsecond)
+			}
+		}
+		if e == nil {
+			return
+		}
+		r := atoi(f[3])
+		if r != 0 && (r < 4 || r > 6) {
+			r = 4
+		}
+		select {
+		case e.retCh <- r:
+		default:
+		}
+	case "cancelcall":
+		if len(f) < 2 || atoi(f[1]) >= len(*cons) {
+			return
+		}
+		c := (*cons)[atoi(f[1])]
+		log.Add("env cancelcall %d", c.id)
+		c.cancel()
+	case "wait", "resolve", "rwr":
+		ctx, cancel := context.WithCancel(context.Background())
+		c := &consumer{cancel: cancel}
+		hld := &refHolder{}
+		withCb := len(f) > 1 && f[1] == "1"
+		switch op {
+		case "rwr":
+			c.id = log.Inv("rwr %d", b2i(withCb))
+		default:
+			c.id = log.Inv("%s", op)
+		}
+		hld.id = c.id
+		*cons = append(*cons, c)
+		*refs = append(*refs, hld)
+		id := c.id
+		w.call(true, func() {
+			defer guard(id)
+			switch op {
+			case "wait":
+				val, ref, err := w.rc.Wait(ctx)
+				log.Ret(id, "cons %d %d", val, consErrID(err))
+				if err == nil {
+					hld.mu.Lock()
+					hld.ref = ref
+					hld.mu.Unlock()
+				}
+			case "resolve":
+				val, rel, err := w.rc.Resolve(ctx)
+				log.Ret(id, "cons %d %d", val, consErrID(err))
+				if err == nil {
+					hld.mu.Lock()
+					hld.rel = rel
+					hld.mu.Unlock()
+				}
+			case "rwr":
+				var released func()
+				if withCb {
+					released = func() { log.Add("cbin released %d", id) }
+				}
+				val, rel, err := w.rc.ResolveWithReleased(ctx, released)
+				log.Ret(id, "cons %d %d", val, consErrID(err))
+				if err == nil {
+					hld.mu.Lock()
+					hld.rel = rel
+					hld.mu.Unlock()
+				}
+			}
+		})
+	}
+}
+
+func genConsumers(rng *rand.Rand, tier string) []string {
+	steps := 14 + rng.Intn(18)
+	if tier == "thorough" {
+		steps = 24 + rng.Intn(40)
+	}
+	out := []string{fmt.Sprintf("config %d 1 1", rng.Intn(2))}
+	nrefs, ncons, nent := 0, 0, 0
+	var accs []int // consumer indices that are Access calls
+	ncb := map[int]int{}
+	if rng.Intn(3) > 0 {
+		out = append(out, "addref rec")
+		nrefs++
+		nent++
+	}
+	for i := 0; i < steps; i++ {
+		r := rng.Intn(100)
+		switch {
+		case r < 12 && len(accs) < 2:
+			out = append(out, "access")
+			accs = append(accs, ncons)
+			ncons++
+			nrefs++
+			nent++
+		case r < 20 && ncons < 4:
+			out = append(out, []string{"wait", "resolve", "rwr 1", "rwr 1", "rwr 0"}[rng.Intn(5)])
+			ncons++
+			nrefs++
+			nent++
+		case r < 26:
+			out = append(out, "addref "+[]string{"rec", "rec", "quiet", "nil"}[rng.Intn(4)])
+			nrefs++
+			nent++
+		case r < 36 && nrefs > 0:
+			out = append(out, fmt.Sprintf("release %d", rng.Intn(nrefs)))
+		case r < 41:
+			out = append(out, fmt.Sprintf("setctx %d", 1+rng.Intn(3)))
+			nent++
+		case r < 43:
+			out = append(out, "clearctx")
+		case r < 58 && nent > 0:
+			e := 0
+			if rng.Intn(6) == 0 {
+				e = 1 + rng.Intn(3)
+			}
+			out = append(out, fmt.Sprintf("return %d v %d %d", rng.Intn(nent), b2i(rng.Intn(6) != 0), e))
+		case r < 70 && nent > 0:
+			out = append(out, fmt.Sprintf("released %d", rng.Intn(nent)))
+			nent++
+		case r < 82 && len(accs) > 0:
+			j := accs[rng.Intn(len(accs))]
+			e := 0
+			if rng.Intn(3) == 0 {
+				e = 4 + rng.Intn(3)
+			}
+			out = append(out, fmt.Sprintf("cbreturn %d %d %d", j, ncb[j], e))
+			if rng.Intn(3) > 0 {
+				ncb[j]++
+			}
+		case r < 85 && ncons > 0:
+			out = append(out, fmt.Sprintf("cancelcall %d", rng.Intn(ncons)))
+		case r < 89:
+			out = append(out, "pause")
+		case r < 94:
+			out = append(out, "settle")
+		default:
+			out = append(out, "quiesce")
+		}
+	}
+	out = append(out, "quiesce")
+	for k := 0; k < nent && k < 10; k++ {
+		out = append(out, fmt.Sprintf("return %d v 1 0", k), "settle")
+	}
+	out = append(out, "quiesce")
+	for _, j := range accs {
+		for n := 0; n <= ncb[j]+1; n++ {
+			out = append(out, fmt.Sprintf("cbreturn %d %d 0", j, n), "settle")
+		}
+	}
+	out = append(out, "quiesce")
+	for i := 0; i < nrefs; i++ {
+		out = append(out, fmt.Sprintf("release %d", i))
+	}
+	out = append(out, "quiesce")
+	return out
+}
+
+func init() {
+	comp.Register(&comp.Component{
+		Name: "refcount-consumers", Model: "refcount-consumers", Gen: genConsumers, Exec: exec(true),
+		Corpus: [][]string{
+			// Access: invalidation during the callback; re-invocation with the replacement value
+			{"config 0 1 1", "access", "return 0 v 1 0", "settle", "released 0", "quiesce", "cbreturn 0 0 0", "settle", "return 1 v 1 0", "quiesce", "cbreturn 0 1 5", "quiesce"},
+			// Access: invalidation after the callback returned is too late to matter; resolver error; cancelled caller
+			{"config 0 1 1", "access", "return 0 v 1 0", "settle", "cbreturn 0 0 4", "quiesce", "access", "released 0", "settle", "return 1 v 1 2", "quiesce", "access", "cancelcall 2", "quiesce"},
+			// Wait / Resolve keep the value alive until released; ResolveWithReleased fires once
+			{"config 0 1 1", "wait", "rwr 1", "resolve", "return 0 v 1 0", "quiesce", "released 0", "settle", "released 0", "quiesce", "return 1 v 1 0", "quiesce", "setctx 2", "quiesce", "release 0", "release 1", "release 2", "quiesce"},
+			// ResolveWithReleased: the user releases first, then the value is invalidated; error result
+			{"config 1 1 1", "rwr 1", "return 0 v 1 0", "settle", "release 0", "quiesce", "released 0", "quiesce", "rwr 0", "return 1 v 1 3", "quiesce", "wait", "cancelcall 2", "quiesce"},
+		},
+	})
 }
